@@ -49,7 +49,7 @@ def run(tier):
             cases.append(e)
     if names is None or len(cases) < 8000:
         raise MachineryError("Api export incomplete")
-    bound = set(al.VEC) | set(al.UNIT_IN) | set(al.UNIT_OUT) | set(al.ORDER) | set(al.SCALARS)
+    bound = set(al.VEC) | set(al.UNIT_IN) | set(al.UNIT_OUT) | set(al.ORDER) | set(al.SCALARS) | set(al.MAT)
     if names - bound:
         raise MachineryError("Api entries without a binding: %s" % sorted(names - bound))
     # reflection cross-check: exported base names that the table does not cover are reported, not judged
@@ -149,6 +149,8 @@ def run(tier):
                 j.fail("%s|%s|order=%r|rejected-documented-order-%s" % (PID, name, o, raised), {"kind": "order", "call": c}, cid)
             else:
                 j.ok(cid)
+        elif op == "mat":
+            continue
         elif op == "scalars":
             name = c["name"]
             fs, fp = al.SCALARS[name]
